@@ -277,6 +277,8 @@ def run(ctx):
         for label, consts in plans:
             res = tlc.run("MC_C10", constants=consts, keep_lines=keep, timeout=7000, heap="12g")
             ctx.add_tlc(res)
+            if res.violation:      # DiagAgreesWithParse: the two readings of the specification must agree (a defect of the spec)
+                raise tlc.MachineryError("MC_C10: spec-level invariant %s violated\n%s" % (res.violation, res.raw_tail[-1500:]))
             items = []
             for r in res.records:
                 s = project.uncps(r["text"])
